@@ -29,6 +29,7 @@ from .. import tq
 from ..interp import State
 from ..terms import Dim, T, V, const, vconst
 
+SEARCH_HOOKS = {"_init_greedy_search", "_continue_greedy_search", "_update_post_selection", "_get_best_new_selection", "_postprocess", "_update_hausdorff", "_compute_pi", "_orthogonalize", "_get_active", "score"}
 FLOOR = 120
 
 CLASSES = []
@@ -243,8 +244,10 @@ def _fit_level(ctx, N):
             cfg = f"{pkg}.{cname} n_to_select={kind}"
             ctx.no_shape_conflicts("Shape", f"{cfg}: whole fit", I, lo, site, cfg)
             # R-RESOLVE
-            raw = [e for e in I.events[lo:] if e["kind"] == "getattr" and e["attr"] == "n_to_select" and e.get("obj") is o.obj and e.get("short") != "GreedySelector.fit"]
-            ctx.ob("R-RESOLVE", f"{cfg}: raw n_to_select read only in GreedySelector.fit", not raw, f"raw hyper-parameter read in {sorted({e['short'] for e in raw})}: `{raw[0]['src']}`" if raw else "only the resolution site reads it", f"{raw[0]['func']}:{raw[0]['line']}" if raw else site, cfg)
+            # the raw hyper-parameter (None / int / fraction) is resolved once, before the search starts: no read
+            # of it inside the search hooks (initialisation, continuation, scoring, bookkeeping)
+            raw = [e for e in I.events[lo:] if e["kind"] == "getattr" and e["attr"] == "n_to_select" and e.get("obj") is o.obj and any(s_.rsplit(".", 1)[-1] in SEARCH_HOOKS for s_ in list(e.get("stack") or []) + [e.get("short") or ""])]
+            ctx.ob("R-RESOLVE", f"{cfg}: raw n_to_select read only while the request is resolved, never inside the search hooks", not raw, f"raw hyper-parameter read in {sorted({e['short'] for e in raw})}: `{raw[0]['src']}`" if raw else "only the resolution site reads it", f"{raw[0]['func']}:{raw[0]['line']}" if raw else site, cfg)
             # resolved extent of the buffers
             from ..apitable import dim_of  # noqa
 
